@@ -28,7 +28,7 @@ pub fn proto_for(prop: &str, cfg: &world::Cfg) -> Option<Box<dyn Monitor>> {
         "C10" => c10_client::proto(),
         "C11" => Box::new(c11::Mon::new(4, TimeDetail::Fine)),
         "C12" => Box::new(c12::Mon::new(64)),
-        "C17" => Box::new(c17::Mon { max_sends: 3 }),
+        "C17" => Box::new(c17::Mon::new(3)),
         _ => return None,
     })
 }
